@@ -1,6 +1,8 @@
 import BigtreeModel.Store
 import BigtreeModel.Generated.Tables
 import BigtreeProofs.Lemmas.StoreAssert
+import BigtreeProofs.Lemmas.BinStoreThms
+import BigtreeProofs.Lemmas.DagStoreThms
 /-!
 # C20 — switching off the optional assertion checks never changes valid behaviour (BaseNode / Node part)
 
@@ -71,3 +73,18 @@ theorem guards_pure :
     (Generated.guardBlocks.all fun b => !b.2.1.isEmpty) = true := by decide
 
 end C20
+
+
+/-!
+## BinaryNode and DAGNode parts
+
+Proved next to their models and audited together with the theorems above
+(`harness/props/C20.py`, `THEOREMS`): `BinStore.assertions_off_same`,
+`BinStore.off_only_removes_rejections`, `BinStore.run_assertions_off_same`,
+`DagStore.assertions_off_same`, `DagStore.off_only_removes_rejections`,
+`DagStore.run_assertions_off_same`.
+-/
+#check @BinStore.assertions_off_same
+#check @BinStore.run_assertions_off_same
+#check @DagStore.assertions_off_same
+#check @DagStore.run_assertions_off_same
